@@ -49,6 +49,7 @@ def grid_elements(lo, hi, far):
 
 SMALL = grid_elements(-1, 5, [(-3, 2), (8, 2), (2, -4), (2, 9), (7, 7)])
 BIG = grid_elements(-1, 9, [(-5, 4), (13, 4), (4, 12)])
+NEST = grid_elements(-1, 15, [(-4, 7), (20, 7)])
 
 
 class Variant:
@@ -86,6 +87,8 @@ def build_variants():
     vs.append(Variant('empty:float64', 'float64', _parr([], 'float64'), []))
     vs.append(Variant('big:float64', 'float64', _parr(BIG, 'float64'), list(BIG)))
     vs.append(Variant('big:int32', 'int32', _parr(BIG, 'int32'), list(BIG)))
+    vs.append(Variant('nest:float64', 'float64', _parr(NEST, 'float64'), list(NEST)))
+    vs.append(Variant('nest:int32', 'int32', _parr(NEST, 'int32'), list(NEST)))
     return vs
 
 
@@ -197,6 +200,121 @@ def gen_shapes(rep, tier):
                         rings.append(h)
                         break
         yield dict(kind='polygon', coords=poly_coords(rings), sem=rings, cls='polygon:random', big=True)
+    # (7) nested multipolygons (an island part inside a hole of another part)
+    yield from gen_nested(rng, quick)
+    # (8) large multipoints (> 16 points)
+    yield from gen_big_multipoints(rng, quick)
+
+
+def _rect(a, b, c, d):
+    return [(a, b), (c, b), (c, d), (a, d)]          # counter-clockwise
+
+
+def gen_nested(rng, quick):
+    """multipolygons in which one part lies, as an island, inside a hole of another part
+    (coordinates 0..14, tested on every integer point of -1..15): island with its own hole,
+    two islands, island inside an island's hole, island listed first / last, every winding
+    combination of the parts.  Each configuration is validated with the exact helpers."""
+    outer_shells = [_rect(0, 0, 14, 14), [(0, 0), (14, 0), (14, 14), (7, 12), (0, 14)]]
+    holes = [_rect(2, 2, 12, 12), [(2, 2), (12, 2), (7, 11)], _rect(2, 2, 12, 7), _rect(1, 3, 13, 11)]
+    islands = [[_rect(4, 4, 10, 10)], [_rect(5, 5, 9, 9)], [_rect(3, 3, 6, 6)], [_rect(8, 3, 11, 6)],
+               [[(4, 3), (10, 3), (7, 8)]], [_rect(6, 3, 8, 6)], [_rect(3, 4, 11, 6)],
+               [_rect(4, 4, 10, 10), _rect(6, 6, 8, 8)[::-1]],          # island with a hole
+               [_rect(3, 3, 11, 6), [(5, 4), (9, 4), (7, 5)][::-1]],
+               [_rect(3, 3, 11, 11), _rect(4, 4, 10, 10)[::-1]]]
+    out = []
+
+    def ok_inside(ring, container):
+        return U.hole_fits(container, ring)
+
+    def emit(parts, cls):
+        orders = [parts, parts[::-1]] + ([parts[1:] + parts[:1]] if len(parts) > 2 else [])
+        for o in orders:
+            for flips in ([False] * len(o), [True] * len(o), [i % 2 == 0 for i in range(len(o))],
+                          [i % 2 == 1 for i in range(len(o))]):
+                ps = [[r[::-1] for r in part] if f else part for part, f in zip(o, flips)]
+                out.append(dict(kind='multipolygon', coords=[poly_coords(p) for p in ps], sem=ps,
+                                cls=cls, nest=True))
+
+    for sh in outer_shells:
+        for h in holes:
+            if not ok_inside(h, sh):
+                continue
+            outer = [sh, h[::-1]]
+            fit = [isl for isl in islands if ok_inside(isl[0], h)]
+            for isl in fit:
+                emit([outer, isl], 'multipolygon:island_in_hole' + ('_with_hole' if len(isl) > 1 else ''))
+            # two islands side by side in the same hole
+            for a, b in itertools.combinations(fit, 2):
+                if not U.rings_touch(a[0], b[0]) and U.interiors_disjoint(a[0], b[0]) \
+                        and not ok_inside(a[0], b[0]) and not ok_inside(b[0], a[0]):
+                    emit([outer, a, b], 'multipolygon:two_islands')
+            # an island inside the hole of an island (three levels)
+            for isl in fit:
+                if len(isl) > 1:
+                    for inner in ([_rect(6, 6, 8, 8)], [_rect(5, 5, 9, 9)], [[(6, 4), (8, 4), (7, 5)]]):
+                        if ok_inside(inner[0], isl[1]):
+                            emit([outer, isl, inner], 'multipolygon:island_in_island_hole')
+    # random rectangles: hole in the shell, island in the hole
+    for _ in range(40 if quick else 600):
+        a, b = sorted(rng.sample(range(1, 14), 2))
+        c, d = sorted(rng.sample(range(1, 14), 2))
+        if b - a < 4 or d - c < 4:
+            continue
+        e, f = sorted(rng.sample(range(a + 1, b), 2))
+        g, hh = sorted(rng.sample(range(c + 1, d), 2))
+        emit([[_rect(0, 0, 14, 14), _rect(a, c, b, d)[::-1]], [_rect(e, g, f, hh)]],
+             'multipolygon:island_in_hole_random')
+    if quick:
+        fixed = [o for o in out if 'random' not in o['cls']]
+        keep = fixed[::max(1, len(fixed) // 260)] + [o for o in out if 'random' in o['cls']][::4]
+        return keep
+    return out
+
+
+def gen_big_multipoints(rng, quick):
+    """multipoints of 17..300 points on the integer grid 0..8 squared (tested on every
+    integer point of -1..9): staircases whose columns start where the previous one ended,
+    few columns with many points (many repeated x), full and random grid subsets, repeats,
+    in sorted and shuffled order"""
+    out = []
+
+    def emit(vs, cls):
+        for order in ('asis', 'shuffled', 'rev'):
+            ws = list(vs)
+            if order == 'shuffled':
+                rng.shuffle(ws)
+            elif order == 'rev':
+                ws = ws[::-1]
+            out.append(dict(kind='multipoint', coords=U.flat(ws), sem=ws, cls=cls, big=True))
+
+    # staircases: column x holds y in [x*h, x*h + h), the next column starts one above
+    for h in (2, 3, 4):
+        for x0 in (0, 1):
+            vs = [(x0 + x, y) for x in range(0, 9 - x0) for y in range(x * h, min(9, x * h + h))]
+            while len(vs) < 17:
+                vs = vs + vs
+            emit(vs, 'multipoint:staircase')
+            emit([(y, x) for x, y in vs], 'multipoint:staircase_transposed')
+            emit([(x, 8 - y) for x, y in vs], 'multipoint:staircase_down')
+    # few columns, many rows
+    for cols in ((0, 1), (0, 4, 8), (3,), (0, 1, 2, 3)):
+        vs = [(x, y) for x in cols for y in range(0, 9) if (x + y) % 3 != 2]
+        while len(vs) < 17:
+            vs = vs + [(x, y) for x, y in vs]
+        emit(vs, 'multipoint:few_columns')
+        emit([(y, x) for x, y in vs], 'multipoint:few_rows')
+    full = [(x, y) for x in range(9) for y in range(9)]
+    emit(full, 'multipoint:full_grid')
+    emit([p for p in full if (p[0] + p[1]) % 2 == 0], 'multipoint:checkerboard')
+    for _ in range(25 if quick else 500):
+        n = rng.choice([17, 18, 20, 33, 64, 81, 150, 300])
+        xs = rng.sample(range(9), rng.randint(1, 9))
+        cand = [p for p in full if p[0] in xs]
+        vs = [rng.choice(cand) for _ in range(n)] if rng.random() < .5 else \
+            (rng.sample(cand, min(len(cand), n)) + [rng.choice(cand) for _ in range(max(0, 17 - len(cand)))])
+        emit(vs, 'multipoint:random_%s' % ('many' if n > 81 else 'some'))
+    return out[::1] if not quick else out
 
 
 def gen_degenerate():
@@ -522,7 +640,9 @@ def run(rep):
                 '-1..5 squared plus 5 far points plus 2 missing slots; every simple ring of 3-4 '
                 'vertices (thorough: 5; every start vertex, both windings), 0-2 holes wound opposite, multipolygons '
                 'of 1-2 parts (touching / apart / far), every polyline of <=3 vertices with repeats, '
-                'multilines, multipoints, points; seeded random 5-7-vertex rings on a 5x5 grid; each '
+                'multilines, multipoints, points; seeded random 5-7-vertex rings on a 5x5 grid; nested '
+                'multipolygons (island parts inside holes of other parts, 0..14, points -1..15); multipoints of '
+                '17-300 points on 0..8 squared (staircases, few columns, grid subsets; points -1..9); each '
                 'shape through array / inds / scalar forms, all 5 subtypes; a case is one shape x one '
                 'point array (56 slots); non-trivial = the answers contain both True and False; '
                 'distinct = distinct (kind, coordinates)')
@@ -532,6 +652,7 @@ def run(rep):
     base = {st: variants[names.index('base:' + st)] for st in G.SUBTYPES}
     rr = [names.index(n) for n in ROUND_ROBIN]
     big = [names.index('big:float64'), names.index('big:int32')]
+    nest = [names.index('nest:float64'), names.index('nest:int32')]
     empty_idx = names.index('empty:float64')
     rng = rep.rng
     pairs = 0
@@ -540,7 +661,7 @@ def run(rep):
     for sh in gen_shapes(rep, tier):
         kind, coords, sem = sh['kind'], sh['coords'], sh['sem']
         k += 1
-        vidx = big[k % 2] if sh.get('big') else rr[k % len(rr)]
+        vidx = nest[k % 2] if sh.get('nest') else big[k % 2] if sh.get('big') else rr[k % len(rr)]
         v = variants[vidx]
         # the shape has the subtype of the point array (one compiled specialisation per
         # subtype); int64 points also meet the scalar built directly from the nested list
